@@ -91,7 +91,7 @@ Module PerfP.
   Definition op_ok (o : op) : bool :=
     match o with
     | FSetLength n _ => 0 <=? n
-    | FReinit _ m => 1 <=? m
+    | FReinit _ m _ => 1 <=? m
     | _ => true
     end.
 
@@ -335,7 +335,7 @@ Module PerfP.
 
   Lemma step_pinv s o : PInv s -> op_ok o = true -> PInv (fst (step s o)).
   Proof.
-    intros [Hm HV] Hok. destruct o as [t v|n fl|k| |s0 m]; cbn [step fst op_ok] in *.
+    intros [Hm HV] Hok. destruct o as [t v|n fl|k| |s0 m nvb]; cbn [step fst op_ok] in *.
     - unfold append. destruct (ev_valid (t, v)) eqn:He; cbn; [|now split].
       split; cbn; [exact Hm|]. apply Forall_app. split; [exact HV|]. now repeat constructor.
     - unfold set_length. destruct fl; [now split|].
@@ -347,7 +347,7 @@ Module PerfP.
       destruct (num_steps _ =? n); split; cbn; auto.
     - split; cbn; [exact Hm|]. unfold py_slice. apply Forall_firstn_. now apply Forall_skipn_.
     - now split.
-    - split; cbn; [lia|constructor].
+    - destruct (MAX_NUM_VELOCITY_BINS <? nvb); cbn; [now split|]. split; cbn; [lia|constructor].
   Qed.
 
   Theorem pinv_reachable : forall ops s,
@@ -364,10 +364,11 @@ Module PerfP.
     induction ops as [|o ops IH]; intros s HI Hok; cbn [trace forallb] in *; [constructor|].
     apply andb_prop in Hok. destruct Hok as [Ho Hr].
     constructor; [|apply IH; [now apply step_pinv|exact Hr]].
-    destruct o as [t v|n [|]|k| |s0 m]; cbn [step]; rewrite ?set_length_from_left; cbn [snd]; try discriminate.
+    destruct o as [t v|n [|]|k| |s0 m nvb]; cbn [step]; rewrite ?set_length_from_left; cbn [snd]; try discriminate.
     - unfold append. destruct (ev_valid (t, v)); discriminate.
     - cbn in Ho. destruct HI as [Hm _].
       destruct (set_length_exact s n) as (s' & -> & _); try lia. discriminate.
+    - destruct (MAX_NUM_VELOCITY_BINS <? nvb); discriminate.
   Qed.
 
   (** ... and every set_length in a history does what it says *)
